@@ -124,6 +124,15 @@ def run(ctx):
                 scens.append(with_sigint(b, {'mode': 'line', 'at': key, 'hit': hit, 'group': rng.random() < 0.3}, f'@{key}#{hit}'))
         for j in range(4 if quick else 20):
             scens.append(with_sigint(b, {'mode': 'time', 'delay': round(rng.uniform(0.0, 0.5), 3), 'group': rng.random() < 0.5}, f't{j}'))
+    # corpus that runs every time: the delivery points of the listed (open) findings, on a configuration that reaches them
+    from lib.common import known_findings
+    for f in known_findings():
+        if f.get('property') == 'C17' and f.get('status') == 'open' and f.get('signature', '').count(':') >= 2:
+            at = f['signature'].split(':', 2)[2]
+            b = base_scen(random.Random(1), 900, 'fork')
+            b['calls'][0]['params']['progress_bar'] = True
+            b['pool'].pop('keep_alive', None)
+            scens.insert(0, with_sigint(b, {'mode': 'line', 'at': at, 'hit': 1}, '@known'))
     recs = runner.run_many(scens, 'c17', jobs=10)
     bad, hangs = analyse(recs)
     out_v, seen = [], set()
